@@ -643,6 +643,74 @@ mod oracle {
                 }
             }
         }
+        /// C07 / C09: a seeded sampler's output does not depend on other samplers in the process, on the batch size, or on the
+        /// pool; the multi-chain NUTS runner returns what its chains return on their own — also for identical start points and
+        /// for start points whose initial step sizes differ, whatever the number of worker threads
+        #[test]
+        fn oracle_c07_c09_isolation_and_runner_equals_individual_chains() {
+            // a large HMC batch, with another sampler built, seeded and run between set_seed and run
+            let init: Vec<Vec<f32>> = (0..600).map(|c| vec![0.01 * c as f32, -0.02 * c as f32]).collect();
+            let run = |disturb: bool| {
+                let mut s = HMC::<f32, B, _>::new(target(), init.clone(), 0.05, 2).set_seed(17);
+                if disturb {
+                    let mut other = HMC::<f32, B, _>::new(target(), vec![vec![0.0f32, 0.0]; 700], 0.1, 1).set_seed(99);
+                    let _ = other.run(1, 1);
+                    let _ = NUTS::<f32, B, _>::new(target(), vec![vec![0.0f32, 0.0]], 0.8).set_seed(3).run(2, 1);
+                }
+                to_vec3(s.run(2, 1)).0
+            };
+            let (a, b, c) = (run(false), run(true), run(false));
+            if a != c || a != b {
+                witness("{\"oracle\":\"c07\",\"sampler\":\"hmc\",\"chains\":600,\"what\":\"a seeded run of a large batch depends on other samplers seeded / run in the process (or is not reproducible)\"}".to_string());
+            }
+            // NUTS: identical starts, and starts at very different distances from the mode
+            let inits: Vec<Vec<Vec<f32>>> = vec![
+                vec![vec![0.5f32, 0.5]; 4],
+                vec![vec![0.0f32, 1.0], vec![30.0, -20.0], vec![0.0, 1.0], vec![300.0, 250.0], vec![-3.0, 4.0]],
+            ];
+            for init in inits {
+                for seed in [5u64, 6, 7, 8] {
+                    for threads in [1usize, 3, 0] {
+                        let init2 = init.clone();
+                        let job = move || {
+                            let mut s = NUTS::<f32, B, _>::new(target(), init2.clone(), 0.8).set_seed(seed);
+                            let first = to_vec3(s.run(3, 2)).0;
+                            let second = to_vec3(s.run(2, 1)).0;
+                            (first, second)
+                        };
+                        let (first, second) = if threads == 0 { job() } else { rayon::ThreadPoolBuilder::new().num_threads(threads).build().unwrap().install(job) };
+                        for (c, pos) in init.iter().enumerate() {
+                            let mut ch = NUTSChain::<f32, B, _>::new(target(), pos.clone(), 0.8).set_seed(seed.wrapping_add(c as u64).wrapping_add(1));
+                            let r1 = ch.run(3, 2).to_data().to_vec::<f32>().unwrap();
+                            let r2 = ch.run(2, 1).to_data().to_vec::<f32>().unwrap();
+                            if r1[..] != first[c * 6..(c + 1) * 6] || r2[..] != second[c * 4..(c + 1) * 4] {
+                                witness(format!("{{\"oracle\":\"c09\",\"sampler\":\"nuts\",\"seed\":{seed},\"threads\":{threads},\"chain\":{c},\"start\":{pos:?},\"what\":\"row {c} of the multi-chain runner (first or second run) differs from chain {c} run on its own with its per-chain seed\"}}"));
+                            }
+                        }
+                    }
+                }
+            }
+        }
+        /// C09: the scalar type may be narrower than the backend float type: run() still returns the chain's actual states
+        #[test]
+        fn oracle_c09_hmc_rows_are_the_states_in_backend_precision() {
+            type B64 = Autodiff<NdArray<f64>>;
+            let t = DiffableGaussian2D::new([0.0f32, 1.0], [[4.0, 2.0], [2.0, 3.0]]);
+            let init = vec![vec![0.1f32, 0.2], vec![1.5, -0.5]];
+            let mk = || HMC::<f32, B64, _>::new(t.clone(), init.clone(), 0.1, 3).set_seed(4);
+            let rows = mk().run(4, 1).to_data().to_vec::<f64>().unwrap(); // [2, 4, 2]
+            let mut manual = mk();
+            manual.step();
+            for k in 0..4 {
+                manual.step();
+                let pos = manual.positions.to_data().to_vec::<f64>().unwrap();
+                for c in 0..2 {
+                    if rows[c * 8 + k * 2..c * 8 + k * 2 + 2] != pos[c * 2..c * 2 + 2] {
+                        witness(format!("{{\"oracle\":\"c09\",\"sampler\":\"hmc\",\"scalar\":\"f32\",\"backend\":\"f64\",\"chain\":{c},\"row\":{k},\"got\":{:?},\"state\":{:?},\"what\":\"run() does not return the chain's states (in the backend's precision)\"}}", &rows[c * 8 + k * 2..c * 8 + k * 2 + 2], &pos[c * 2..c * 2 + 2]));
+                    }
+                }
+            }
+        }
         #[test]
         fn oracle_c08_nuts_and_hmc_chains_use_distinct_streams() {
             // identical start states: trajectories must differ between chains, seeded or not
@@ -1027,6 +1095,231 @@ mod oracle {
         impl Target<f64, f64> for HalfLineMh {
             fn unnorm_logp(&self, p: &[f64]) -> f64 {
                 if p[0] > 1.0 { f64::NAN } else { p[0].ln() - p[0] }   // NaN for x <= 0 (ln of a negative), NaN region above 1
+            }
+        }
+        // ---------------- round 3: public-field writes between updates, a target with a NaN region, other dimensions ------
+        fn hl_lp_grad(x: &[f64]) -> (f64, Vec<f64>) {
+            (x[0].ln() - x[0] - 0.5 * x[1] * x[1], vec![1.0 / x[0] - 1.0, -x[1]])
+        }
+        /// one HMC update of one row in plain f64 for the draws (p0, u): (next position, "decision within rounding of the threshold")
+        fn ref_hmc_row(lpg: &dyn Fn(&[f64]) -> (f64, Vec<f64>), x: &[f64], p0: &[f64], u: f64, eps: f64, l: usize) -> (Vec<f64>, bool) {
+            let d = x.len();
+            let (lp0, g0) = lpg(x);
+            let (mut q, mut p, mut g) = (x.to_vec(), p0.to_vec(), g0);
+            for _ in 0..l {
+                for j in 0..d { p[j] += 0.5 * eps * g[j]; }
+                for j in 0..d { q[j] += eps * p[j]; }
+                g = lpg(&q).1;
+                for j in 0..d { p[j] += 0.5 * eps * g[j]; }
+            }
+            let lp1 = lpg(&q).0;
+            let h0 = -lp0 + 0.5 * p0.iter().map(|v| v * v).sum::<f64>();
+            let h1 = -lp1 + 0.5 * p.iter().map(|v| v * v).sum::<f64>();
+            let accept = h0 - h1 >= u.ln();
+            let near = ((h0 - h1) - u.ln()).abs() < 1e-7;
+            (if accept { q } else { x.to_vec() }, near)
+        }
+        /// C02: the update starts from the sampler's CURRENT public fields (positions, step size), also right after they were
+        /// assigned; and it is L leapfrog steps + the Metropolis test on a target whose log-density is NaN outside its support
+        /// (finite gradient there), for one chain and for several
+        #[test]
+        fn oracle_c02_field_writes_and_nan_region() {
+            // (a) Gaussian target, fields rewritten between updates
+            for seed in 0..3u64 {
+                let mut s = HMC::<f64, B, _>::new(gauss(), vec![vec![0.2, 0.9], vec![-1.0, 2.0]], 0.4, 4).set_seed(seed);
+                let mut x: Vec<Vec<f64>> = vec![vec![0.2, 0.9], vec![-1.0, 2.0]];
+                let mut eps = 0.4f64;
+                for step in 0..14 {
+                    if step == 4 { s.step_size = 0.15; eps = 0.15; }
+                    if step == 7 {
+                        x = vec![vec![3.0, -3.0], vec![0.5, 0.5]];
+                        s.positions = Tensor::<B, 2>::from_data(TensorData::new(vec![3.0f64, -3.0, 0.5, 0.5], [2, 2]), &Default::default());
+                    }
+                    if step == 10 { s.step_size = 0.9; eps = 0.9; }
+                    let mut probe = s.rng.clone();
+                    let p0: Vec<Vec<f64>> = (0..2).map(|_| (0..2).map(|_| probe.sample::<f64, _>(StandardNormal)).collect()).collect();
+                    let us: Vec<f64> = (0..2).map(|_| probe.random::<f64>()).collect();
+                    s.step();
+                    let got = s.positions.to_data().to_vec::<f64>().unwrap();
+                    for c in 0..2 {
+                        let (want, near) = ref_hmc_row(&lp_grad, &x[c], &p0[c], us[c], eps, 4);
+                        if !near && !(close(got[2 * c], want[0]) && close(got[2 * c + 1], want[1])) {
+                            witness(format!("{{\"oracle\":\"c02\",\"seed\":{seed},\"update\":{step},\"chain\":{c},\"x\":{:?},\"eps\":{eps},\"got\":[{},{}],\"want\":{want:?},\"what\":\"after public fields were assigned, the update is not L leapfrog steps from the current position with the current step size\"}}", x[c], got[2 * c], got[2 * c + 1]));
+                        }
+                        x[c] = vec![got[2 * c], got[2 * c + 1]];
+                    }
+                }
+            }
+            // (b) half-line target: log-density NaN for x0 < 0, finite gradient there
+            for n_chains in [1usize, 2, 3] {
+                for (seed, eps) in [(0u64, 0.35f64), (1, 0.6), (2, 0.9), (3, 0.5)] {
+                    let init: Vec<Vec<f64>> = (0..n_chains).map(|c| vec![0.4 + 0.8 * c as f64, 0.3 - 0.2 * c as f64]).collect();
+                    let mut s = HMC::<f64, B, _>::new(HalfLine, init.clone(), eps, 5).set_seed(seed);
+                    let mut x = init.clone();
+                    for step in 0..60 {
+                        let mut probe = s.rng.clone();
+                        let p0: Vec<Vec<f64>> = (0..n_chains).map(|_| (0..2).map(|_| probe.sample::<f64, _>(StandardNormal)).collect()).collect();
+                        let us: Vec<f64> = (0..n_chains).map(|_| probe.random::<f64>()).collect();
+                        s.step();
+                        let got = s.positions.to_data().to_vec::<f64>().unwrap();
+                        for c in 0..n_chains {
+                            let (want, near) = ref_hmc_row(&hl_lp_grad, &x[c], &p0[c], us[c], eps, 5);
+                            if !near && !(close(got[2 * c], want[0]) && close(got[2 * c + 1], want[1])) {
+                                witness(format!("{{\"oracle\":\"c02\",\"target\":\"half line\",\"chains\":{n_chains},\"seed\":{seed},\"eps\":{eps},\"update\":{step},\"chain\":{c},\"x\":{:?},\"p\":{:?},\"u\":{},\"got\":[{},{}],\"want\":{want:?},\"what\":\"row is neither the unchanged position nor the point reached by exactly L leapfrog steps under the Metropolis test on H\"}}", x[c], p0[c], us[c], got[2 * c], got[2 * c + 1]));
+                            }
+                            x[c] = vec![got[2 * c], got[2 * c + 1]];
+                        }
+                    }
+                }
+            }
+        }
+        /// standard normal in any dimension, written without ops whose autodiff goes through f32
+        #[derive(Clone)]
+        struct StdNormalND;
+        impl<Bk: burn::tensor::backend::AutodiffBackend> GradientTarget<f64, Bk> for StdNormalND {
+            fn unnorm_logp(&self, position: Tensor<Bk, 1>) -> Tensor<Bk, 1> {
+                (position.clone() * position).sum().mul_scalar(-0.5)
+            }
+        }
+        fn sn_lp_grad(x: &[f64]) -> (f64, Vec<f64>) {
+            (-0.5 * x.iter().map(|v| v * v).sum::<f64>(), x.iter().map(|v| -v).collect())
+        }
+        struct PtN { x: Vec<f64>, r: Vec<f64>, g: Vec<f64> }
+        impl Clone for PtN { fn clone(&self) -> Self { PtN { x: self.x.clone(), r: self.r.clone(), g: self.g.clone() } } }
+        struct TreeN { minus: PtN, plus: PtN, cx: Vec<f64>, n: usize, s: bool, alpha: f64, n_alpha: usize }
+        fn lf_n(lpg: &dyn Fn(&[f64]) -> (f64, Vec<f64>), p: &PtN, e: f64) -> (PtN, f64) {
+            let d = p.x.len();
+            let r1: Vec<f64> = (0..d).map(|j| p.r[j] + p.g[j] * e * 0.5).collect();
+            let x1: Vec<f64> = (0..d).map(|j| p.x[j] + r1[j] * e).collect();
+            let (lp1, g1) = lpg(&x1);
+            let r2: Vec<f64> = (0..d).map(|j| r1[j] + g1[j] * e * 0.5).collect();
+            (PtN { x: x1, r: r2, g: g1 }, lp1)
+        }
+        fn no_uturn_n(m: &PtN, p: &PtN) -> bool {
+            let d: Vec<f64> = (0..m.x.len()).map(|j| p.x[j] - m.x[j]).collect();
+            dot(&d, &m.r) >= 0.0 && dot(&d, &p.r) >= 0.0
+        }
+        fn build_tree_n(lpg: &dyn Fn(&[f64]) -> (f64, Vec<f64>), p: &PtN, logu: f64, v: i8, j: usize, eps: f64, joint0: f64, rng: &mut SmallRng) -> TreeN {
+            if j == 0 {
+                let (p1, lp1) = lf_n(lpg, p, v as f64 * eps);
+                let jt = lp1 - dot(&p1.r, &p1.r) * 0.5;
+                TreeN { minus: p1.clone(), plus: p1.clone(), cx: p1.x.clone(), n: (logu < jt) as usize, s: (logu - 1000.0) < jt, alpha: f64::min(1.0, (jt - joint0).exp()), n_alpha: 1 }
+            } else {
+                let mut t = build_tree_n(lpg, p, logu, v, j - 1, eps, joint0, rng);
+                if t.s {
+                    let start = if v == -1 { t.minus.clone() } else { t.plus.clone() };
+                    let t2 = build_tree_n(lpg, &start, logu, v, j - 1, eps, joint0, rng);
+                    if v == -1 { t.minus = t2.minus.clone(); } else { t.plus = t2.plus.clone(); }
+                    let u: f64 = rng.random();
+                    if u < (t2.n as f64 / (t.n + t2.n).max(1) as f64) { t.cx = t2.cx.clone(); }
+                    t.n += t2.n;
+                    t.s = t.s && t2.s && no_uturn_n(&t.minus, &t.plus);
+                    t.alpha += t2.alpha;
+                    t.n_alpha += t2.n_alpha;
+                }
+                t
+            }
+        }
+        fn ref_transition_n(lpg: &dyn Fn(&[f64]) -> (f64, Vec<f64>), x: &[f64], a: &Adapt, delta: f64, rng: &mut SmallRng) -> (Vec<f64>, Adapt, bool) {
+            let d = x.len();
+            let m = a.m + 1;
+            let r0: Vec<f64> = (0..d).map(|_| rng.sample::<f64, _>(StandardNormal)).collect();
+            let (lp0, g0) = lpg(x);
+            let joint0 = lp0 - dot(&r0, &r0) * 0.5;
+            let e: f64 = rng.sample(Exp1);
+            let logu = joint0 - e;
+            let p0 = PtN { x: x.to_vec(), r: r0, g: g0 };
+            let (mut minus, mut plus) = (p0.clone(), p0.clone());
+            let (mut j, mut n, mut s) = (0usize, 1usize, true);
+            let (mut alpha, mut n_alpha) = (0.0f64, 0usize);
+            let mut cur = x.to_vec();
+            let mut fragile = false;
+            while s {
+                let u1: f64 = rng.random();
+                let v: i8 = if u1 < 0.5 { 1 } else { -1 };
+                let t = if v == -1 { build_tree_n(lpg, &minus, logu, v, j, a.eps, joint0, rng) } else { build_tree_n(lpg, &plus, logu, v, j, a.eps, joint0, rng) };
+                if v == -1 { minus = t.minus.clone(); } else { plus = t.plus.clone(); }
+                alpha = t.alpha;
+                n_alpha = t.n_alpha;
+                let tmp = f64::min(1.0, t.n as f64 / n as f64);
+                let u2: f64 = rng.random();
+                if (u2 - tmp).abs() < 1e-12 { fragile = true; }
+                if t.s && u2 < tmp { cur = t.cx.clone(); }
+                n += t.n;
+                s = t.s && no_uturn_n(&minus, &plus);
+                j += 1;
+                if j > 12 { fragile = true; break; }
+            }
+            let mut eta = 1.0 / (m + 10) as f64;
+            let h_bar = (1.0 - eta) * a.h_bar + eta * (delta - alpha / n_alpha as f64);
+            let (eps, eps_bar);
+            if m <= a.n_discard {
+                let mf = m as f64;
+                eps = (a.mu - mf.sqrt() / 0.05 * h_bar).exp();
+                eta = mf.powf(-0.75);
+                eps_bar = ((1.0 - eta) * a.eps_bar.ln() + eta * eps.ln()).exp();
+            } else {
+                eps = a.eps_bar;
+                eps_bar = a.eps_bar;
+            }
+            (cur, Adapt { m, n_discard: a.n_discard, eps, eps_bar, h_bar, mu: a.mu }, fragile)
+        }
+        fn ref_eps0_n(lpg: &dyn Fn(&[f64]) -> (f64, Vec<f64>), x: &[f64], mom: &[f64]) -> f64 {
+            let (lp0, g0) = lpg(x);
+            let p0 = PtN { x: x.to_vec(), r: mom.to_vec(), g: g0 };
+            let mut eps = 1.0f64;
+            let (p1, mut lp1) = lf_n(lpg, &p0, eps);
+            let g1_real = p1.g.iter().all(|v| v.is_finite());
+            let mut mom1 = p1.r.clone();
+            let mut k = 1.0f64;
+            while !lp1.is_finite() && !g1_real {
+                k *= 0.5;
+                let (p, lp) = lf_n(lpg, &p0, eps * k);
+                mom1 = p.r.clone();
+                lp1 = lp;
+            }
+            eps = 0.5 * k * eps;
+            let mut lap = lp1 - lp0 - (dot(&mom1, &mom1) - dot(mom, mom)) * 0.5;
+            let a = if lap > 0.5f64.ln() { 1.0 } else { -1.0 };
+            while a * lap > -a * 2.0f64.ln() {
+                eps *= 2.0f64.powf(a);
+                let (p, lp) = lf_n(lpg, &p0, eps);
+                lap = lp - lp0 - (dot(&p.r, &p.r) - dot(mom, mom)) * 0.5;
+            }
+            eps
+        }
+        /// C03 in dimensions other than 2 (black box, from the seed): run() equals Algorithm 6 with |r|^2/2 as kinetic energy
+        #[test]
+        fn oracle_c03_nuts_in_other_dimensions() {
+            for d in [1usize, 3, 5] {
+                for seed in [31u64, 32, 33] {
+                    let start: Vec<f64> = (0..d).map(|j| 0.3 * (j as f64 + 1.0) - 0.5).collect();
+                    let (n_collect, n_discard, delta) = (6usize, 3usize, 0.8f64);
+                    let mut ch = NUTSChain::<f64, B, _>::new(StdNormalND, start.clone(), delta).set_seed(seed);
+                    let got = ch.run(n_collect, n_discard).to_data().to_vec::<f64>().unwrap();
+                    let mut rng = SmallRng::seed_from_u64(seed);
+                    let mom0: Vec<f64> = (0..d).map(|_| rng.sample::<f64, _>(StandardNormal)).collect();
+                    let eps0 = ref_eps0_n(&sn_lp_grad, &start, &mom0);
+                    let mut a = Adapt { m: 0, n_discard, eps: eps0, eps_bar: 1.0, h_bar: 0.0, mu: (10.0 * eps0).ln() };
+                    let mut x = start.clone();
+                    let mut rows: Vec<Vec<f64>> = vec![x.clone(); n_collect];
+                    let mut fragile = false;
+                    for m in 1..(n_collect + n_discard) {
+                        let (nx, na, fr) = ref_transition_n(&sn_lp_grad, &x, &a, delta, &mut rng);
+                        x = nx;
+                        a = na;
+                        fragile |= fr;
+                        if m >= n_discard { rows[m - n_discard] = x.clone(); }
+                    }
+                    if fragile { continue; }
+                    for k in 0..n_collect {
+                        for j in 0..d {
+                            if !close(got[k * d + j], rows[k][j]) {
+                                witness(format!("{{\"oracle\":\"c03\",\"dimension\":{d},\"seed\":{seed},\"row\":{k},\"got\":{:?},\"want\":{:?},\"what\":\"in dimension {d} run() differs from Algorithm 6 (joint = log p - |r|^2/2) simulated from the same seed\"}}", &got[k * d..(k + 1) * d], rows[k]));
+                            }
+                        }
+                    }
+                }
             }
         }
         /// log p(x) = -(sqrt(x0) - 1)^2 - x1^2/2: value and gradient are NaN for x0 < 0
